@@ -163,6 +163,61 @@ def ref_gcm(key, nonce, header, msg, tlen):
     return C, xor(toy_E(key, j0), S)[:tlen]
 
 
+def ref_openpgp(key, iv, msg):
+    """RFC 4880 13.9 (OpenPGP CFB with the resynchronisation step)."""
+    fre = toy_E(key, bytes(16))
+    c1 = xor(iv, fre)
+    fre = toy_E(key, c1)
+    c2 = xor(iv[-2:], fre[:2])
+    fr = (c1 + c2)[2:]
+    out = b""
+    for o in range(0, len(msg), 16):
+        fre = toy_E(key, fr)
+        blk = xor(msg[o:o + 16], fre[:len(msg[o:o + 16])])
+        out += blk
+        fr = blk
+    return c1 + c2 + out
+
+
+def run_openpgp(repo, cfg):
+    key, iv, msg, how = cfg["key"], cfg["nonce"], cfg["msg"], cfg["how"]
+    want = ref_openpgp(key, iv, msg)
+    w = World(repo)
+    o = w.create("Crypto.Cipher._mode_openpgp", "_create_openpgp_cipher", key=key, IV=iv)
+    if not isinstance(o, AObj):
+        return "constructor: %r" % (o,)
+    got = b""
+    for p in pieces(msg, how):
+        r = w.call(o, "encrypt", p)
+        if not isinstance(r, bytes):
+            return "encrypt: %r" % (r,)
+        got += r
+    if got != want:
+        k = [j for j in range(min(len(got), len(want))) if got[j] != want[j]]
+        return "ciphertext differs from RFC 4880 13.9 (%s)" % ("byte %d" % k[0] if k else "length %d instead of %d" % (len(got), len(want)))
+    w = World(repo)
+    o = w.create("Crypto.Cipher._mode_openpgp", "_create_openpgp_cipher", key=key, IV=want[:18])
+    if not isinstance(o, AObj):
+        return "constructor (receiver): %r" % (o,)
+    iv_seen = w.st.heap.get(o.ident, {}).get("iv")
+    if iv_seen != iv:
+        return "the receiver recovers the IV %r" % (iv_seen,)
+    back = b""
+    for p in pieces(want[18:], how):
+        r = w.call(o, "decrypt", p)
+        if not isinstance(r, bytes):
+            return "decrypt: %r" % (r,)
+        back += r
+    if back != msg:
+        return "decrypt does not invert encrypt"
+    for bad in (15, 17, 19, 0):
+        w = World(repo)
+        r = w.create("Crypto.Cipher._mode_openpgp", "_create_openpgp_cipher", key=key, IV=pat(bad, 3))
+        if r != ("raises", "ValueError"):
+            return "an IV of %d bytes: %r" % (bad, "accepted" if isinstance(r, AObj) else r)
+    return None
+
+
 def ntz(i):
     n = 0
     while not i & 1:
@@ -333,6 +388,12 @@ class World(object):
                 i._diverged = i.do_raise("ValueError", st, node)
                 return UNK
             h.update({"nonce": bytes(nonce), "ctr": iv, "pos": 0})
+        elif mode == MODE["CFB"]:
+            iv = a[2] if len(a) > 2 else kw.get("iv", kw.get("IV"))
+            seg = kw.get("segment_size", 8)
+            if not isinstance(iv, (bytes, bytearray)) or len(iv) != 16 or seg != 128:
+                return UNK                  # only the full-block segment size that the OpenPGP mode asks for
+            h.update({"reg": bytes(iv), "ks": b"", "fb": b""})
         elif mode != MODE["ECB"]:
             return UNK
         return o
@@ -361,6 +422,19 @@ class World(object):
             r, h["reg"] = cbc_enc(key, h["reg"], data)
             if not data:
                 r = b""
+        elif mode == MODE["CFB"]:
+            r = bytearray()
+            for b in data:
+                if not h["ks"]:
+                    h["ks"] = toy_E(key, h["reg"])
+                    h["fb"] = b""
+                o = b ^ h["ks"][0]
+                h["ks"] = h["ks"][1:]
+                r.append(o)
+                h["fb"] += bytes([b if dec else o])
+                if len(h["fb"]) == 16:
+                    h["reg"] = h["fb"]
+            r = bytes(r)
         else:
             pos = h["pos"]
             w = 16 - len(h["nonce"])
@@ -685,6 +759,8 @@ def compose_tables(check, ctx, modes=("eax", "siv", "ccm", "gcm", "ocb"), rule="
     SRC = {"eax": "Crypto.Cipher._mode_eax", "siv": "Crypto.Cipher._mode_siv", "ccm": "Crypto.Cipher._mode_ccm", "gcm": "Crypto.Cipher._mode_gcm", "ocb": "Crypto.Cipher._mode_ocb"}
     total = 0
     for name in modes:
+        if name == "openpgp":
+            continue
         cfgs = configs(name, th)
         errs = pmap(lambda c, name=name: run_mode(repo, name, c), cfgs)
         wrong = []
@@ -703,5 +779,15 @@ def compose_tables(check, ctx, modes=("eax", "siv", "ccm", "gcm", "ocb"), rule="
                  extracted=("%d of %d configurations differ: " % (len(wrong), len(cfgs)) + "; ".join(wrong[:3])) if wrong else
                  "%d configurations (message / header length classes, nonce and tag lengths, one piece and awkward pieces): ciphertext and tag byte for byte; the receiver returns the plaintext and refuses a changed ciphertext, tag or header bit" % len(cfgs),
                  expected=CITE[name])
+    if "openpgp" in modes:
+        cfgs = [dict(key=pat(16, 0x44 + ml), nonce=pat(16, 0x71 + ml), msg=pat(ml, 0x15), how=how)
+                for ml in (0, 1, 15, 16, 17, 33, 48, 50) for how in ("one", "bytes3", "blocks") if how == "one" or ml > 20]
+        errs = pmap(lambda c: run_openpgp(repo, c), cfgs)
+        wrong = ["%d-byte message, %s: %s" % (len(c["msg"]), c["how"], e) for c, e in zip(cfgs, errs) if e]
+        mod = repo.module("Crypto.Cipher._mode_openpgp")
+        check.ob(rule, "%s|openpgp.cfb" % rule, not wrong, mod.path, 0,
+                 extracted=("%d of %d rows differ: " % (len(wrong), len(cfgs)) + "; ".join(wrong[:3])) if wrong else "%d rows: encrypted IV || repeated bytes || resynchronised CFB, byte for byte; the receiver recovers the IV and the message; IVs of other lengths refused" % len(cfgs),
+                 expected="RFC 4880 13.9: OpenPGP CFB with the 2-byte IV check and resynchronisation")
+        total += len(cfgs)
     check.count("aead_compose_rows", total)
     return total
